@@ -122,6 +122,10 @@ class PhaseGen:
             if r.random() < 0.2 and depth < 2:
                 g = self.gen(PERSIST_INT + TEMPS + ["<t>"])
                 cond = c02.norm_expr(g.bool_expr(1))
+                if r.random() < 0.25:
+                    bare = [v for v in PERSIST_INT + TEMPS if v in self.avail]
+                    if bare:
+                        cond = ["var", r.choice(bare)]
                 saved = set(self.avail)
                 self.prog.append(["if", cond])
                 self.block(r.randint(1, 3), depth + 1)
@@ -346,6 +350,57 @@ def reads_unset(case, code):
     return Spy.hit
 
 
+def natural_dag_run(case, obs):
+    """The written program carried out step by step (c02.natural_run per phase body; only <state>, <p>, <t>,
+    <dt> outlive a step).  Independent of the builder's bookkeeping, the controller, the lowering and both
+    stepping loops."""
+    progs = {nm: (nxt, prog) for nm, nxt, prog in case["phases"]}
+    store = dict({"<state>" + k: v for k, v in case["init"].items()}, **{"<t>": ["int", 0], "<dt>": ["int", 1]})
+    nxt = case["first"]
+    evs, end, n_steps = [], ["cut"], 0
+
+    def snap():
+        return [store.get(n) for n in obs]
+    while True:
+        if len([e for e in evs if e[0] != "yield"]) >= MAX_EVENTS:
+            break
+        if case["mode"] == "time":
+            t = store.get("<t>")
+            if t is None or t[0] not in ("int", "bool"):
+                end = ["crash", "TypeError"]
+                break
+            if t[1] >= case["limit"]:
+                end = ["time"]
+                break
+        if case["mode"] == "steps" and n_steps >= case["limit"]:
+            end = ["steps"]
+            break
+        cur = nxt
+        if cur not in progs:
+            end = ["crash", "KeyError"]
+            break
+        nxt = progs[cur][0]
+        r = c02.natural_run(progs[cur][1], store)
+        store = {k: v for k, v in r["store"].items()
+                 if k in ("<t>", "<dt>") or k.startswith("<state>") or k.startswith("<p>")}
+        evs += [["yield"] + e for e in r["events"]]
+        st = r["status"]
+        if st[0] == "crash":
+            end = ["user"] if st[1] == "user" else ["crash", st[1]]
+            break
+        if st[0] == "stop" and st[1] == "raise":
+            end = ["raised", st[2]]
+            break
+        if st[0] == "stop" and st[1] == "fail":
+            evs.append(["failed", store.get("<t>"), snap()])
+            continue
+        if st[0] == "stop" and st[1] == "switch":
+            nxt = st[2]
+        evs.append(["completed", store.get("<dt>"), store.get("<t>"), cur, nxt, snap()])
+        n_steps += 1
+    return {"events": evs, "end": end, "next": nxt, "final": snap()}
+
+
 def canon_obs(r):
     """None snapshot entries (unset) and ['none'] (None value) are different in the interpreter (key missing
     vs value None) but indistinguishable in generated code (attribute set to None by set_up)."""
@@ -386,6 +441,14 @@ def oracle(case):
     o = None
     if rg["end"][0] == "codegen_failed":
         o = {"kind": "codegen_failed", "detail": rg["end"]}
+    elif differ(canon_obs(ri), canon_obs(natural_dag_run(case, obs))):
+        a, b = canon_obs(ri), canon_obs(natural_dag_run(case, obs))
+        first = next((i for i, (x, y) in enumerate(zip(a["events"], b["events"])) if x != y), None)
+        o = {"kind": "interpreter_differs_from_written_program", "first_differing_event": first,
+             "interpreter": {"event": a["events"][first] if first is not None and first < len(a["events"]) else None,
+                             "end": a["end"], "n_events": len(a["events"]), "final": a["final"], "next": a["next"]},
+             "as_written": {"event": b["events"][first] if first is not None and first < len(b["events"]) else None,
+                            "end": b["end"], "n_events": len(b["events"]), "final": b["final"], "next": b["next"]}}
     elif hdef and differ(canon_obs(ri), canon_obs(rg)):
         a, b = canon_obs(ri), canon_obs(rg)
         first = next((i for i, (x, y) in enumerate(zip(a["events"], b["events"])) if x != y), None)
